@@ -51,18 +51,21 @@
 #include "QXmppStreamFeatures.h"
 #include "QXmppConfiguration.h"
 #include "c08_common.h"
+#include "c08_iqmap.h"     // class-level model of the table of pending own requests; must precede the first use of that unordered_map
 
 #define private public
 #define protected public
 #include "QXmppClientExtension.h"
 #include "QXmppClient.h"
 #include "QXmppClient_p.h"
-#include "QXmppOutgoingClient.h"
-#include "QXmppOutgoingClient_p.h"
 #include "QXmppStreamManagement_p.h"
 #include "QXmppPacket_p.h"
+// the REAL QXmppOutgoingClient.cpp is compiled as part of this file (not as a separate TU) so that OutgoingIqManager is built against the
+// request-table model, as in harness/C07
+#include "client/QXmppOutgoingClient.cpp"
 #undef private
 #undef protected
+#include "c08_iqmap_impl.h"
 using namespace QXmpp::Private;
 
 // ------------------------------------------------------------------------------------------------ wire
@@ -125,7 +128,8 @@ struct World {
     QXmppClient *client; QXmppClientPrivate *cd; QXmppOutgoingClient *stream; QXmppOutgoingClientPrivate *sd;
     MockExt *ext[2]; unsigned next;
     unsigned lastIn0;
-    World(unsigned nExt, const SymIq &q)
+    bool pendUsed = false; QString pendId, pendJid;
+    World(unsigned nExt, const SymIq &q, bool withPending = false)
         : client(cbuf.p()), cd(cdbuf.p()), stream(sbuf.p()), sd(sdbuf.p()), next(nExt)
     {
         g_client = client;
@@ -142,7 +146,15 @@ struct World {
         lastIn0 = vp_u32(); vp_assume(lastIn0 < 0x7fffffff);
         sd->streamAckManager.m_lastIncomingSequenceNumber = lastIn0;
         sd->streamAckManager.m_enabled = vp_bool();
-        new (&sd->iqManager.m_requests) std::unordered_map<QString, IqState>();   // no own request pending (matching responses to requests is C07's subject)
+        // table of the client's own requests in flight: 0..1 pending request with an ARBITRARY id and addressee (so the incoming iq's id / from
+        // may coincide with it) where withPending, else empty.  How responses are matched to requests is C07's subject; here the table
+        // is there because OutgoingIqManager::handleStanza sees every incoming iq before the extension chain and the fallback do.
+        VpIqMap *map = new (&sd->iqManager.m_requests) VpIqMap();
+        if (withPending) {
+            pendId = vpSymString(C08_IDLEN); pendJid = vpSymString(C08_FROMLEN); pendUsed = vp_bool();
+            new (map->slot(0)) VpIqMap::value_type(pendId, IqState { {}, pendJid });
+            map->t->s[0]->used = pendUsed;
+        }
         for (unsigned i = 0; i < 2; i++) {
             ext[i] = nullptr;
             if (i >= nExt) continue;
@@ -234,7 +246,7 @@ template<unsigned TY, unsigned K> static void streamCase()
 {
     if (K >= CLI_CASES || (TY >= TY_RESULT && K == 2)) return;
     SymIq q; symIq(q, TY, CLI_SHAPE[K], true);
-    World w(CLI_NEXT[K], q);
+    World w(CLI_NEXT[K], q, TY < TY_RESULT);      // requests: an own request may be in flight, possibly with the same id and peer
     const HandleElementResult res = w.stream->handleElement(q.iq);
     const bool isResponse = (q.ty == TY_RESULT || q.ty == TY_ERROR);
     w.checkChain(true, true);
